@@ -131,7 +131,9 @@ def rand_content(rng, delim, n):
     return out
 
 
-def rand_name(rng):
+def rand_name(rng, allow_empty=True):
+    if allow_empty and rng.random() < 0.08:
+        return b""          # name="" / filename="" are legal
     fl = rng.random()
     n = rng.choice((1, 1, 2, 5, 9, 20))
     if fl < 0.5:
@@ -150,14 +152,14 @@ def rand_parts(rng, delim, maxparts=10, maxsize=64):
     for _ in range(k):
         isfile = rng.random() < 0.4
         size = rng.choice((0, 0, 1, 2, 5, rng.randrange(0, maxsize + 1)))
-        parts.append({"name": rand_name(rng), "filename": rand_name(rng) if (isfile and rng.random() < 0.8) else b"",
+        parts.append({"name": rand_name(rng), "filename": rand_name(rng) if ((isfile and rng.random() < 0.8) or (not isfile and rng.random() < 0.2)) else b"",
                       "mime": rng.choice(MIMES) if isfile else b"", "data": rand_content(rng, delim, size)})
     return parts
 
 
-def enc_header_canonical(p):
+def enc_header_canonical(p, wfn=False):
     h = b"Content-Disposition: form-data; name=" + quote(p["name"])
-    if p["filename"]:
+    if p["filename"] or wfn:
         h += b"; filename=" + quote(p["filename"])
     h += b"\r\n"
     if p["mime"]:
@@ -177,8 +179,8 @@ def enc_header_variant(rng, p):
         h += b"X-Extra: something; else\r\n"
     h += cd + rng.choice((b": ", b":", b" : ")) + rng.choice((b"form-data", b"Form-Data"))
     items = [(rng.choice((b"name", b"Name")), p["name"])]
-    if p["filename"]:
-        items.append((b"filename", p["filename"]))
+    if p["filename"] or rng.random() < 0.4:
+        items.append((b"filename", p["filename"]))      # possibly filename="" (a file input left empty)
     if rng.random() < 0.3:
         items.insert(rng.randrange(len(items) + 1), (b"other", b"zz"))
     if rng.random() < 0.3:
@@ -264,7 +266,7 @@ class Gen:
         self.ties = []
 
     def add(self, line, **m):
-        if m.get("kind") in ("enc", "encform", "hdrok"):
+        if m.get("kind") in ("enc", "encform", "hdrok"):   # (enc covers both the `enc` and the `encb` op)
             self.ties.append((line, m))     # model-side only: Spec encoders / header predicate vs the generator's bytes
             return
         self.cases.append(line)
@@ -283,9 +285,10 @@ class Gen:
         delim = b"\r\n--" + key
         parts = rand_parts(rng, delim, maxparts=10 if not small else 3, maxsize=40 if small else rng.choice((64, 300, 3000)))
         canonical = rng.random() < 0.5
-        headers = [enc_header_canonical(p) if canonical else enc_header_variant(rng, p) for p in parts]
+        wfn = rng.random() < 0.5
+        headers = [enc_header_canonical(p, wfn) if canonical else enc_header_variant(rng, p) for p in parts]
         body = enc_body(key, parts, headers)
-        return key, content_type_for(rng, key), parts, headers, body, canonical
+        return key, content_type_for(rng, key), parts, headers, body, ("encb" if wfn else "enc") if canonical else None
 
     def multipart_cases(self, n_small, n_big, big_size=0):
         rng = self.rng
@@ -296,12 +299,12 @@ class Gen:
                 # one big part (spill / limits at scale)
                 delim = b"\r\n--" + key
                 parts[0]["data"] = rand_content(rng, delim, rng.randrange(big_size // 2, big_size))
-                headers[0] = enc_header_canonical(parts[0])
+                headers[0] = enc_header_canonical(parts[0], canonical == "encb")
                 body = enc_body(key, parts, headers)
             cl = len(body)
             gid = f"wf{it}"
             if canonical:
-                self.add("enc %s %s" % (hx(key), " ".join(hx(p[k]) for p in parts for k in ("name", "filename", "mime", "data"))),
+                self.add("%s %s %s" % (canonical, hx(key), " ".join(hx(p[k]) for p in parts for k in ("name", "filename", "mime", "data"))),
                          kind="enc", expect=hx(body))
             for h, p in zip(headers, parts):
                 self.add("hdrok " + hx(h), kind="hdrok", expect="1 " + ",".join(hx(p[k]) for k in ("name", "filename", "mime")))
@@ -396,6 +399,32 @@ class Gen:
                     self.rq(flt, ct, cl, cl + 10, cl + 10, mem, True, buf, b"", chunk_at(body, cuts_random(rng, cl, rng.choice((0, 2)))),
                             kind="rq-wf", expect=exp, group=(gid, mem), body=body, parts=parts)
 
+    # ---- per-field limit: everything that ends up in post() (no Content-Type; with or without a file name, also
+    #      filename="") is bounded by content_length_limit; sizes limit-1, limit, limit+1, >> limit
+    def field_limit_cases(self, n):
+        rng = self.rng
+        for it in range(n):
+            key = bytes(rng.choice(b"abcXYZ019") for _ in range(rng.randrange(1, 12)))
+            ct = b"multipart/form-data; boundary=" + key
+            delim = b"\r\n--" + key
+            L = rng.choice((0, 1, 2, 10, 100, 1000))
+            for si, size in enumerate((max(0, L - 1), L, L + 1, 10 * L + 50)):
+                shape = rng.choice(("fname", "fname", "fname-empty", "plain"))
+                big = {"name": rand_name(rng), "filename": {"fname": b"upload.txt", "fname-empty": b"", "plain": b""}[shape], "mime": b"",
+                       "data": rand_content(rng, delim, size)}
+                others = [{"name": rand_name(rng), "filename": b"", "mime": b"", "data": rand_content(rng, delim, rng.randrange(0, L + 1))} for _ in range(rng.randrange(0, 3))]
+                if rng.random() < 0.5:
+                    others.append({"name": b"f", "filename": b"big.bin", "mime": b"application/octet-stream", "data": rand_content(rng, delim, 3 * L + 7)})
+                parts = others[:1] + [big] + others[1:]
+                headers = [enc_header_canonical(p, shape == "fname-empty") for p in parts]
+                body = enc_body(key, parts, headers)
+                cl = len(body)
+                exp = expect_request(parts, cl, L, cl + 10, 100, True)
+                for flt in (0, 2, 4):
+                    chs = rng.choice(([body], chunk_at(body, cuts_random(rng, cl, 3)), [bytes([x]) for x in body] if cl < 1500 else [body]))
+                    self.rq(flt, ct, cl, L, cl + 10, 100, True, rng.choice((1, 7, 64, 65536)) if cl < 4000 else 4096, b"", chs,
+                            kind="rq-wf", expect=exp, group=(f"fl{it}-{si}", 0), body=body, parts=parts)
+
     # ---- file_buffer put area: write schedules (sputc / sputn) against memory limits that are and are not of the form 64*2^k
     def fb_cases(self, n):
         rng = self.rng
@@ -445,6 +474,8 @@ class Gen:
                 if i >= 0:
                     j = i + rng.randrange(0, 30)
                     b[j:j + 1] = bytes([rng.choice(b'";=:\r\n \\')])
+                    if rng.random() < 0.3:   # an empty unquoted parameter value (the parser refuses it)
+                        b = bytearray(bytes(b).replace(b"\r\n\r\n", rng.choice((b"; filename=\r\n\r\n", b"; name=\r\n\r\n", b"; filename=;x=1\r\n\r\n")), 1))
             elif op == 7:   # CR/LF runs around the end of the header block (the naive CRLFCRLF scanner)
                 run = bytes(rng.choice(b"\r\n\r\nx") for _ in range(rng.randrange(2, 9)))
                 b = bytearray(b"--" + key + b"\r\nContent-Disposition: form-data; name=a" + run + rng.choice((b"", b"\r\n\r\n", b"\n\r\n")) +
@@ -601,6 +632,7 @@ def main():
         if thorough:
             g.multipart_cases(220, 24, big_size=262144)
             g.readback_cases(150)
+            g.field_limit_cases(60)
             g.fb_cases(3000)
             g.malformed_cases(2500)
             g.ct_cases(4000)
@@ -608,6 +640,7 @@ def main():
         else:
             g.multipart_cases(36, 6, big_size=40000)
             g.readback_cases(25)
+            g.field_limit_cases(12)
             g.fb_cases(400)
             g.malformed_cases(350)
             g.ct_cases(500)
@@ -720,6 +753,17 @@ def main():
                     bad.append((k, "malformed urlencoded body: expected 400"))
             if kind == "rq-form" and not m.get("malformed") and m.get("body") is not None and cases[k].split()[3] != "-":
                 pass
+            if kind and kind.startswith("rq") and head.startswith("status 200 post ") and " files " in head:
+                w_ = cs.split(" ", 6)
+                ctl = bytes.fromhex(w_[2]).lower() if w_[2] != "-" else b""
+                if b"multipart/form-data" in ctl and w_[1] != "3":
+                    climit_ = int(w_[4])
+                    pv = head[len("status 200 post "):].split(" files ")[0]
+                    for kv in ([] if pv == "-" else pv.split(";")):
+                        v = kv.split("=")[1]
+                        if v != "-" and len(v) // 2 > climit_:
+                            bad.append((k, "a post() value of %d bytes was delivered although content_length_limit is %d" % (len(v) // 2, climit_)))
+                            break
             if kind and kind.startswith("rq") and k < len(out_m) and not cs.startswith("rq 1 "):
                 # multipart_accept_iff / malformed_refused are proved of the model: a body the model refuses and the code
                 # delivers (or the other way round) is a failing input of "malformed is refused" / "well-formed is delivered"
